@@ -46,13 +46,3 @@ Definition dnssl_exact (r : router) (d : ra_info) : Prop :=
 Definition known_ri_multiple (d : ra_info) : bool := (2 <=? List.length (routes (ra_opts d)))%nat.
 Definition known_rdnss_multiple (d : ra_info) : bool := (2 <=? List.length (rdnsses (ra_opts d)))%nat.
 Definition known_dnssl_multiple (d : ra_info) : bool := (2 <=? List.length (dnssls (ra_opts d)))%nat.
-
-(* classes of malformed options on which the code (before repair) left a trace or accepted the option *)
-Definition tlvs_of (p : bytes) : list (N * N * bytes) :=
-  match split_tlv (List.length p) (skipn 16 p) with Some l => l | None => [] end.
-Definition known_rdnss_malformed (p : bytes) : bool :=
-  existsb (fun x => match x with (t, l, _) => (t =? 25) && ((l <? 3) || N.even l) end) (tlvs_of p).
-Definition known_ri_reserved_prf (p : bytes) : bool :=
-  existsb (fun x => match x with (t, l, body) => (t =? 24) && (((nth 1 body 0) / 8) mod 4 =? 2) end) (tlvs_of p).
-Definition known_prefix_len_over_128 (p : bytes) : bool :=
-  existsb (fun x => match x with (t, l, body) => (t =? 3) && (l =? 4) && (128 <? nth 0 body 0) end) (tlvs_of p).
